@@ -239,7 +239,7 @@ def run_parse_slice(ctx, sch, html, features):
 
 _ZOO = []
 ZOO_BLOCK = ["aside", "section", 'div class="aside"', 'div class="close"', 'p class="pre"', 'p class="full"', 'pre class="x"']
-ZOO_INLINE = ['span class="note" data-kind="k"', 'span class="note"', 'span class="hidden"', "font", 'br class="close"', 'b class="both"', "sup", "mark",
+ZOO_INLINE = ['span class="fn"', 'span class="fn"', 'span class="note" data-kind="k"', 'span class="note"', 'span class="hidden"', "font", 'br class="close"', 'b class="both"', "sup", "mark",
               'mark data-c="red"', 'span style="vertical-align: super"', 'span style="background-color: blue"', 'span style="background-color: none"',
               'span style="font-style: normal"', 'em style="font-style: normal"']
 
@@ -282,6 +282,9 @@ def zoo_schema():
                       "parseDOM": [{"tag": "aside"}, {"tag": "div", "getAttrs": has("aside"), "priority": 70}, {"tag": "section", "contentElement": first_div}]}
     nodes["note"] = {"inline": True, "group": "inline", "attrs": {"kind": {"default": "x"}}, "toDOM": lambda n: ["span", {"class": "note", "data-kind": n.attrs["kind"]}],
                      "parseDOM": [{"tag": "span", "priority": 60, "getAttrs": lambda d: ({"kind": d.get("data-kind")} if "note" in (d.get("class") or "") and d.get("data-kind") else False)}]}
+    # a footnote-like inline node that has inline content of its own
+    nodes["fn"] = {"inline": True, "group": "inline", "content": "text*", "toDOM": lambda n: ["span", {"class": "fn"}, 0],
+                   "parseDOM": [{"tag": "span", "getAttrs": has("fn"), "priority": 65}]}
     marks = dict(S0.spec["marks"])
     em = dict(marks["em"])
     em["parseDOM"] = [{"tag": "b", "getAttrs": has("both"), "consuming": False, "priority": 60}, *em.get("parseDOM", []),
@@ -503,7 +506,10 @@ def normal_word(rnd, special_p=0.15):
     return w
 
 
-def gen_normal_inline(sch, rnd, g):
+_IN_FN = [False]
+
+
+def gen_normal_inline(sch, rnd, g, text_only=False):
     """Whitespace-normal inline content as plain trees: words joined by single spaces, no
     space at either edge, after a hard break or on both sides of a boundary."""
     rs = sch.ref
@@ -511,8 +517,18 @@ def gen_normal_inline(sch, rnd, g):
     prev_space_ok = False  # may the next text start with a space?
     n = rnd.randint(0, 5)
     for k in range(n):
-        r = rnd.random()
+        r = rnd.random() * (0.72 if text_only else 1.0)
         if r < 0.72:
+            if prev_space_ok and items and items[-1][0] == "t" and rnd.random() < 0.15:
+                # the blank between two words as a text node of its own (unmarked, or marked
+                # differently from both neighbours)
+                sep = ()
+                if rnd.random() < 0.4:
+                    for mn in ("em", "strong"):
+                        if mn in rs.marks and rnd.random() < 0.5:
+                            sep = rs.ref_add((mn, "{}"), sep)
+                items.append(("t", " ", sep))
+                prev_space_ok = False
             words = [normal_word(rnd) for _ in range(rnd.randint(1, 3))]
             txt = " ".join(words)
             if prev_space_ok and rnd.random() < 0.6:
@@ -530,7 +546,16 @@ def gen_normal_inline(sch, rnd, g):
             items.append(("n", "hard_break", "{}", (), ()))
             prev_space_ok = False
         elif r < 0.93 and "note" in rs.nodes:
-            items.append(("n", "note", flat.akey({"kind": rnd.choice(["x", "k", 'a"<b>&'])}), (), ()))
+            if rnd.random() < 0.5 and "fn" in rs.nodes and not _IN_FN[0]:
+                # inline container: marked words separated by single blanks inside it
+                _IN_FN[0] = True
+                try:
+                    inner = tuple(gen_normal_inline(sch, rnd, g, text_only=True))
+                finally:
+                    _IN_FN[0] = False
+                items.append(("n", "fn", "{}", (), inner))
+            else:
+                items.append(("n", "note", flat.akey({"kind": rnd.choice(["x", "k", 'a"<b>&'])}), (), ()))
             prev_space_ok = True
         else:
             at = {"src": rnd.choice(["i.png", "a&b.png", 'x".png', ""]), "alt": None, "title": rnd.choice([None, "t<i>", ""])}
@@ -647,7 +672,7 @@ def check_export(ctx, sch, rnd):
     if sch.id == "rule-zoo":
         allowed |= {"aside", "span", "sup", "mark"}
         kinds_doc = [json.loads(t[2])["kind"] for t in flat.toks(p[4], sch.leaf) if t[0] == "L" and t[1] == "note"]
-        kinds_dom = [el.get("data-kind") for el in frag.iter("span")]
+        kinds_dom = [el.get("data-kind") for el in frag.iter("span") if "note" in (el.get("class") or "")]
         cols_doc = {json.loads(m[1])["color"] for t in flat.toks(p[4], sch.leaf) for m in (t[2] if t[0] == "T" else t[3] if t[0] in ("L", "O") else ()) if m[0] == "hl"}
         cols_dom = {el.get("data-c") for el in frag.iter("mark")}
         if kinds_dom != [str(k_) for k_ in kinds_doc] or cols_dom != {str(c_) for c_ in cols_doc}:
